@@ -102,11 +102,9 @@ pub trait MapValidVec<T: IsNone>: Vec1View<T> {
             ),
             // same rule as for any other lag: null for a null element or a zero base
             _ => Box::new(self.titer().map(|v| {
-                if v.not_none() && (v.cast() != 0.) {
-                    0.
-                } else {
-                    f64::NAN
-                }
+                let v: f64 = v.cast();
+                // x / x - 1: 0 for a finite non-zero element, null for an infinite one
+                if v.not_none() && (v != 0.) { v / v - 1. } else { f64::NAN }
             })),
         }
     }
